@@ -385,6 +385,41 @@ func tvLines(t ntv) []string {
 	return s
 }
 
+// e2eOK: values the end-to-end run may carry — nothing that panics inside a controller
+// goroutine (which would take the whole harness process down, as it does the real server).
+func e2eOK(g gval, o mopts) bool {
+	if o.nilPath {
+		return false
+	}
+	ok := func(s scalar) bool {
+		switch s.k {
+		case kDecNil:
+			return false
+		case kDec:
+			return s.prec%256 <= 18
+		case kFloat:
+			return !isNaN(s.bits)
+		case kStr, kAscii:
+			return utf8.Valid(s.b)
+		}
+		return true
+	}
+	if !g.ll {
+		// a scalar JsonVal takes the other branch of doUpdateOrReplace (the plugin extracts the values)
+		return ok(g.s) && g.s.k != kOther
+	}
+	for _, e := range g.es {
+		// a float leaf-list with an infinite member wedges its proposal (KF-C17-llfloat-inf-wedge):
+		// only the corpus script exercises that, every such Set costs the full time-out
+		if !ok(e) || (e.k == kFloat && !finite(e.bits)) {
+			return false
+		}
+	}
+	return true
+}
+
+func e2eLine(g gval, o mopts) string { return fw.Join("value.e2e", encGVal(g), encOpts(o)) }
+
 func mkCase(g gval, o mopts, tvs []ntv, extra []string, tags []string) fw.Case {
 	s := valueLines(g, o)
 	for _, t := range tvs {
@@ -414,6 +449,10 @@ func gen(r *rng.R, tier string) fw.Case {
 	}
 	if inDomain(g) {
 		tags = append(tags, "monitored")
+	}
+	if r.Chance(1, 8) && e2eOK(g, o) {
+		extra = append(extra, e2eLine(g, o))
+		tags = append(tags, "end-to-end")
 	}
 	return mkCase(g, o, tvs, extra, tags)
 }
@@ -559,12 +598,26 @@ func shrinkCase(c fw.Case) []fw.Case {
 		return nil
 	}
 	var out []fw.Case
+	hasE2E := false
+	for _, ln := range c.Script {
+		if strings.HasPrefix(ln, "value.e2e") {
+			hasE2E = true
+		}
+	}
 	add := func(ng gval, no mopts) {
-		nc := mkCase(ng, no, nil, nil, c.Tags)
+		var extra []string
+		if hasE2E && e2eOK(ng, no) {
+			extra = []string{e2eLine(ng, no)}
+		}
+		nc := mkCase(ng, no, nil, extra, c.Tags)
 		nc.Origin = c.Origin
 		out = append(out, nc)
 	}
-	if len(c.Script) > len(valueLines(g, o)) {
+	base := len(valueLines(g, o))
+	if hasE2E {
+		base++
+	}
+	if len(c.Script) > base {
 		add(g, o) // drop the native-side and extra lines
 	}
 	if g.ll {
